@@ -167,3 +167,11 @@ func init() {
 		return e.callSSA(fr.caller, fr.callSite, fn, []V{args[1], args[2]}, nil)
 	})
 }
+
+func init() {
+	// The embedded descriptor bytes of *-reflection.go are gzip + meta encoded (not encodable);
+	// harnesses obtain descriptors from thrift_reflection.RegisterAST instead.
+	reg(tg+"thrift_reflection.BuildFileDescriptor", func(e *Engine, fr *frame, args []V) V {
+		return V{K: KPtr, P: (*V)(nil)}
+	})
+}
